@@ -157,6 +157,13 @@ fn props() -> Vec<Prop> {
     }]
 }
 
+/// prefix of at most `n` bytes that ends on a char boundary
+pub fn trunc_at(s: &str, n: usize) -> &str {
+    let mut k = n.min(s.len());
+    while !s.is_char_boundary(k) { k -= 1; }
+    &s[..k]
+}
+
 fn main() {
     let args: Vec<String> = std::env::args().collect();
     if args.len() < 2 {
@@ -351,5 +358,5 @@ fn first_diff(req: &str, exp: &str, got: &str) -> String {
 }
 
 fn trunc(s: &str) -> String {
-    if s.len() > 300 { format!("{}…", &s[..300]) } else { s.to_string() }
+    if s.len() > 300 { format!("{}…", trunc_at(s, 300)) } else { s.to_string() }
 }
